@@ -17,7 +17,7 @@ from symx.core import rv, frac, prove, model_value
 from pySDC.core.collocation import CollBase
 
 PID = 'C05'
-BOUNDS = {'quick': dict(M='1..5', families=6, quad_types=4, intervals=5), 'thorough': dict(M='1..8', families=6, quad_types=4, intervals=7)}
+BOUNDS = {'quick': dict(M='1..5', families=6, quad_types=4, intervals=8), 'thorough': dict(M='1..8', families=6, quad_types=4, intervals=10)}
 NODE_TYPES = ['LEGENDRE', 'EQUID', 'CHEBY-1', 'CHEBY-2', 'CHEBY-3', 'CHEBY-4']
 QUAD_TYPES = ['GAUSS', 'LOBATTO', 'RADAU-LEFT', 'RADAU-RIGHT']
 
@@ -35,7 +35,7 @@ def tasks(tier, seed):
     T = []
     quick = tier == 'quick'
     rng = random.Random(seed)
-    intervals = [(0.0, 1.0), (-3.0, -1.0), (1000.0, 1000.1), (-1.0, 7.0)]
+    intervals = [(0.0, 1.0), (-3.0, -1.0), (1000.0, 1000.1), (-1.0, 7.0), (-1.0, 0.0), (-0.125, 0.0), (0.0, 0.001)]  # (end points exactly zero included)
     for _ in range(3):
         a = rng.uniform(-5, 5)
         intervals.append((a, a + rng.uniform(0.01, 3)))
@@ -44,7 +44,7 @@ def tasks(tier, seed):
             for M in (range(1, 6) if quick else range(1, 9)):
                 if qt in ('LOBATTO', 'RADAU-LEFT') and M < 2:
                     continue
-                T.append(('coll', nt, qt, M, intervals if not quick else intervals[:5]))
+                T.append(('coll', nt, qt, M, intervals if not quick else intervals[:7] + intervals[7:8]))
     return T
 
 
